@@ -113,6 +113,18 @@ def sequences(tier, rnd):
         for j, w in enumerate(words):
             s += w + [M] + ([0] if j < len(words) - 1 else [])
         add("hashrpf", s)
+    # pair hash table growth: more than 0.75 * 131072 distinct pairs alive at once (strings of 25 two-byte "letters" over 361
+    # letters: after ~360 rounds the text is a sequence of non-terminals with > 10^5 repeated adjacent pairs).  Too large for the
+    # extracted checker (oracle answers SKIP): losslessness is evaluated directly on the implementation's expansion.
+    for i in range(1 if not big else 3):
+        r2 = random.Random(7000 + i)
+        s = []
+        for j in range(650000):
+            x = r2.randrange(361)
+            s += [2 + x // 19, 100 + x % 19]
+            if j % 25 == 24:
+                s.append(0)
+        add("hashgrow", s + [0])
     # random
     nr = 60 if not big else 900
     for i in range(nr):
@@ -175,7 +187,7 @@ def gen(tier, seed):
         raise RuntimeError("driver build failed: " + msg)
     p1 = [Case("p1_" + name, ["rp_build " + " ".join(map(str, s))], {}) for name, s in seqs]
     p1 += [Case("p1_" + name, ["rpd_build " + " ".join(x.hex() for x in S)], {}) for name, S in sets]
-    res = vlib.run_cases(exe, p1, tag="impl-p1")
+    res = vlib.run_cases(exe, p1, tag="impl-p1", timeout_case=300)
     cases = []
     for name, s in seqs:
         o = res.get("p1_" + name, {"lines": [], "status": "missing", "err": []})
